@@ -10,7 +10,7 @@
      * an enum-typed value is written as the qualified member name or as the declared number of a member; a member
        name at an integer type is its number;
      * a reference to a constant is the constant's value; the constant's type must be the target's, or both must resolve
-       (typedefs) to the same scalar / named type; a constant of enum type may also be used as its number at an integer type;
+       (typedefs at the top) to the same type; a constant of enum type may also be used as its number at an integer type;
      * `[..]` at list / set, `{k: v, ..}` at map (and `[]` for the empty map), element by element;
      * `{"field": v, ..}` at a struct: named members get their values, an optional member that is not named stays
        unset, a required member that is not named holds its type's empty value;
@@ -105,7 +105,6 @@ Section Spec.
     | TyRef n => match sitem n with Some (INewType _) | None => true | _ => false end
     | _ => false
     end.
-  Definition scalar_head (t : ty) : bool := match t with TyList _ | TySet _ | TyMap _ _ => false | _ => true end.
 
   Definition int_at (t : ty) (z : Z) : option gval :=
     match t with
@@ -128,8 +127,8 @@ Section Spec.
               let rt := sresolve t in
               let rc := sresolve (erase ct) in
               if unresolved rt then None
-              else if ty_eqb (erase ct) t || (scalar_head rt && ty_eqb rc rt)
-              then cv c                                  (* the same type, or scalar / named types equal up to typedefs *)
+              else if ty_eqb (erase ct) t || ty_eqb rc rt
+              then cv c                                  (* the same type, or the same type once the typedefs at the top are resolved *)
               else
                 (* a constant of enum type used as a number *)
                 match rc, cv c with
@@ -166,7 +165,7 @@ Section Spec.
           end
       | LFloat s =>
           match sresolve t with
-          | TyDouble => match parse_f64 s with Some b => Some (GDouble b) | None => None end
+          | TyDouble => match parse_f64 (sign_norm s) with Some b => Some (GDouble b) | None => None end   (* `-+x` is -(x) *)
           | _ => None
           end
       | LString s =>
